@@ -80,10 +80,29 @@ WMean(x, w) == Norm(DotW(x, w, Len(x)), TotalW(w))                        \* sum
 
 ArgMaxSet(w) == {i \in 1..Len(w) : \A j \in 1..Len(w) : w[j] <= w[i]}     \* MAP = any sample of greatest weight
 
+\* ---------------------------------------------------------------------------------------------------
+\* The weights a sampler hands over are non-negative reals of ARBITRARY positive total: normalised (total 1),
+\* raw counts / importance weights (total > 1), a mode's share of the evidence (total < 1, e.g. MultiNest's
+\* post_separate), ...  A weight vector of rationals rw (rw[i] = <<n, d>>) is brought to integers over the common
+\* denominator; the weighted quantiles, the weighted mean sum(w x)/sum(w) and the set of samples of greatest
+\* weight are those of the integer vector (all are homogeneous of degree 0 in the weights: TotalFree in
+\* MC_Posterior).  Handed(w, tot) = the weights proportional to the integers w whose total is the rational tot;
+\* tot = <<0, 1>> stands for "as they are" (total = sum of w).
+LCMi(a, b) == (a \div GCD(a, b)) * b
+RECURSIVE DenLcm(_, _)
+DenLcm(rw, i) == IF i = 0 THEN 1 ELSE LCMi(rw[i][2], DenLcm(rw, i - 1))
+IntW(rw) == LET L == DenLcm(rw, Len(rw)) IN [i \in 1..Len(rw) |-> rw[i][1] * (L \div rw[i][2])]
+RTotalW(rw) == RSumSeq(rw)
+Handed(w, tot) == IF tot[1] = 0 THEN [i \in 1..Len(w) |-> Q(w[i])]
+                  ELSE [i \in 1..Len(w) |-> Norm(w[i] * tot[1], TotalW(w) * tot[2])]
+TotalOf(w, tot) == IF tot[1] = 0 THEN Q(TotalW(w)) ELSE Norm(tot[1], tot[2])
+
 \* summary of one trace (fitted parameter column or derived-parameter trace)
 \*   value = q50, sigma_m = q50 - q16, sigma_p = q84 - q50
 Summary(x, w) == [trip  |-> Triples(x, w),
                   mean  |-> WMean(x, w),
                   trace |-> x]
+RSummary(x, rw) == Summary(x, IntW(rw))                                   \* summary under rational weights
+RArgMaxSet(rw)  == ArgMaxSet(IntW(rw))
 SummaryTriple(t) == [value |-> t[2], sigma_m |-> RSub(t[2], t[1]), sigma_p |-> RSub(t[3], t[2])]
 =============================================================================
